@@ -261,6 +261,23 @@ func VerifC14Reopen() {
 		return
 	}
 	vstub.Cover("reopened")
+	// another SPELLING of the printed address (a trailing slash), opened the way the
+	// typed helpers do (Create: true): it designates the same database - it is opened,
+	// or refused - never silently turned into a new database under another address
+	if name != "" && vstub.NdChoice("trailing-slash", 2) == 1 {
+		_ = st2.Close()
+		st3, err3 := p2.Open(ctx, addr+"/", &CreateDBOptions{IO: e1.IO, Replicate: &no, Create: &yes, StoreType: &typ})
+		if err3 == nil {
+			vstub.Assert(st3.Address().String() == addr, "C14 an address written with a trailing slash opens the SAME database (or is refused), it does not create another one")
+			_ = st3.Close()
+		}
+		parsed, perr := address.Parse(addr + "/")
+		if perr == nil {
+			vstub.Assert(parsed.String() == addr, "C14 an address written with a trailing slash parses to the same root and path")
+		}
+		vstub.Cover("trailing-slash-spelling")
+		return
+	}
 	vstub.Assert(st2.Type() == typ, "C14 opening the address yields a store of the recorded type")
 	vstub.Assert(st2.Address().String() == addr, "C14 the opened store has the same address")
 	got, gerr := st2.AccessController().GetAuthorizedByRole("write")
